@@ -101,6 +101,7 @@ fn profile() -> Profile {
         extra: 0,
         tiny_patterns: true,
         non_ascii_urls: false,
+        hostname_wildcards: false,
     }
 }
 
